@@ -8,7 +8,9 @@ LINKS = ["await_coro", "await_gencoro", "await_obj_wrapper", "await_obj_gen", "y
          "asend_val0", "asend_val1", "asend_val2", "asend_val3", "asend_val4",
          # the anext() builtin, one- and two-argument forms, over a native async generator and over a class-based
          # async iterator whose __anext__ is a coroutine function
-         "anext_builtin", "anext_default", "anext_custom", "anext_custom_default"]
+         "anext_builtin", "anext_default", "anext_custom", "anext_custom_default",
+         # frames that hold managers open while the chain continues below them
+         "agen_with_asend", "agen_with_async_for", "agen_with_anext", "gen_with_yield_from"]
 ENDS = ["trap", "trap", "fut", "listiter", "falsyiter"]
 OUTERS = ["coro", "coro", "gen", "gencoro", "agen"]
 
